@@ -108,6 +108,37 @@ def setKex (info : Info) (s : Side) (x : List Name) : Except Err Side :=
   if (x.filter fun n => !info.kex.contains n).length > 0 then .error .valueError
   else .ok { s with prefKex := x }
 
+/-- the five categories `SecurityOptions` exposes (`kex`, `key_types`, `ciphers`, `digests`, `compression`) -/
+inductive Cat | kex | keys | ciphers | macs | compression
+  deriving Repr, DecidableEq
+
+def Info.table (i : Info) : Cat → List Name
+  | .kex => i.kex | .keys => i.keys | .ciphers => i.ciphers | .macs => i.macs | .compression => i.compression
+
+def Side.pref (s : Side) : Cat → List Name
+  | .kex => s.prefKex | .keys => s.prefKeys | .ciphers => s.prefCiphers | .macs => s.prefMacs
+  | .compression => s.prefComp
+
+def Side.withPref (s : Side) : Cat → List Name → Side
+  | .kex, x => { s with prefKex := x }
+  | .keys, x => { s with prefKeys := x }
+  | .ciphers, x => { s with prefCiphers := x }
+  | .macs, x => { s with prefMacs := x }
+  | .compression, x => { s with prefComp := x }
+
+/-- `SecurityOptions._set(name, orig, x)` for any category: the names are validated against the table
+    FIRST; only a fully valid tuple is stored.  Result: the transport afterwards, and whether
+    `ValueError` was raised — after a raising assignment the transport is exactly as before. -/
+def setPref (info : Info) (s : Side) (c : Cat) (x : List Name) : Side × Bool :=
+  if (x.filter fun n => !(info.table c).contains n).length > 0 then (s, true)
+  else (s.withPref c x, false)
+
+/-- a program of assignments (each may raise and be caught by the caller: "try an optional
+    algorithm, fall back") -/
+def applySetters (info : Info) (s : Side) : List (Cat × List Name) → Side
+  | [] => s
+  | (c, x) :: rest => applySetters info (setPref info s c x).1 rest
+
 /-! ## KEXINIT -/
 
 /-- the eight algorithm name-lists of a KEXINIT, in wire order -/
